@@ -435,6 +435,24 @@ class Check:
                     rec["confirmed"] = bool(res.get("violates"))
             except Exception as ex:  # noqa
                 rec["replay_error"] = repr(ex)
+        if not rec["confirmed"] and getattr(self, "refuted_finders", False):
+            # the counter-model could not be written down / did not reproduce: look for a small
+            # failing input with the registered bounded finder (never needed for the verdict)
+            cache = self.__dict__.setdefault("_finder_cache", {})
+            for prefix, mk in getattr(self, "finders", {}).items():
+                if not o.name.startswith(prefix):
+                    continue
+                if prefix not in cache:
+                    spec = mk()
+                    try:
+                        cache[prefix] = (spec, run_replay(spec["script"], spec.get("input"), self.repo, timeout=spec.get("timeout", 600)))
+                    except Exception as ex:  # noqa
+                        cache[prefix] = (spec, {"violates": False, "error": repr(ex)})
+                spec, res = cache[prefix]
+                if res.get("violates"):
+                    rec.update({"confirmed": True, "script": spec["script"], "input": spec.get("input"), "native": res,
+                                "note": "failing input found by the bounded search, not by replaying the solver's model"})
+                break
         o.replay = rec
         o.replay_path = path
         with open(path, "w") as f:
